@@ -163,7 +163,7 @@ package eval
 
 // ---- session frame (C10, C09 depth, C05): every evaluation step returns with the scope, the recursion depth and
 // the output writer it was entered with (normal returns; panics are handled by repl.EvalOne, see C10). ----
-//@ define frame(s) = s.depth == old(s.depth) && s.env == old(s.env) && s.Out == old(s.Out)
+//@ define frame(s) = s.depth == old(s.depth) && s.env == old(s.env) && s.Out == old(s.Out) && s.env.numReg == old(s.env.numReg)
 
 //@ func (*State).Eval
 //@   requires s != nil && s.env != nil
@@ -186,7 +186,7 @@ package eval
 //@   property C10
 
 // Members whose frame clause is assumed for now (not yet verified: see DESIGN.md).
-//@ funcs (*State).evalStatements, (*State).evalForExpression, (*State).evalForInteger, (*State).evalForList, (*State).evalIdentifier, (*State).evalPrefixIncrDecr, (*State).evalAssignment, (*State).evalIndexAssigment, (*State).evalPipe, (*State).evalIndexExpression, (*State).evalMapLiteral, (*State).evalPrintLogError, (*State).evalDelete, (*State).deleteMapEntry, (*State).evalBuiltin, (*State).applyFunction, (*State).evalForSpecialForms, (*State).extendFunctionEnv, (*State).evalExpressions assumed
+//@ funcs (*State).evalStatements, (*State).evalForExpression, (*State).evalForList, (*State).evalIdentifier, (*State).evalPrefixIncrDecr, (*State).evalAssignment, (*State).evalIndexAssigment, (*State).evalPipe, (*State).evalIndexExpression, (*State).evalMapLiteral, (*State).evalPrintLogError, (*State).evalDelete, (*State).deleteMapEntry, (*State).evalBuiltin, (*State).applyFunction, (*State).evalForSpecialForms assumed
 //@   requires s != nil
 //@   modifies heap
 //@   ensures  frame:: frame(s)
@@ -212,7 +212,7 @@ package eval
 //@   maypanic *
 //@   dyncall Callback requires mincount:: len(arg2) >= fn.MinArgs
 //@   dyncall Callback requires maxcount:: fn.MaxArgs == -1 || len(arg2) <= fn.MaxArgs
-//@   dyncall Callback ensures s.depth == old(s.depth) && s.env == old(s.env) && s.Out == old(s.Out) && result != nil
+//@   dyncall Callback ensures s.depth == old(s.depth) && s.env == old(s.env) && s.Out == old(s.Out) && s.env.numReg == old(s.env.numReg) && result != nil
 //@   ensures  frame:: frame(s)
 //@   property C07
 
@@ -240,3 +240,49 @@ package eval
 //@   trustframe
 //@   nosafety
 //@   property C10
+
+// ---- integer registers (C05): a counted loop leaves the register stack as it found it, on every exit ----
+//@ func setupRegister
+//@   requires env != nil && 0 <= env.numReg
+//@   requires capacity:: env.numReg < 8
+//@   modifies env.numReg, env.registers, map token.interning
+//@   trustframe
+//@   nosafety
+//@   maypanic *
+//@   ensures  env.numReg == old(env.numReg) + 1 && result0.Idx == old(env.numReg) && result0.RefEnv == env
+//@   property C05 C07
+
+// Call arguments never carry a register out of the environment that owns it.
+//@ func (*State).evalExpressions
+//@   requires s != nil && s.env != nil
+//@   modifies heap
+//@   nosafety
+//@   maypanic *
+//@   loop 1 invariant s.depth == old(s.depth) && s.env == old(s.env) && s.Out == old(s.Out) && s.env.numReg == old(s.env.numReg)
+//@   loop 1 invariant forall(0, len(result), func(k int) bool { return !isType(result[k], *object.Register) })
+//@   ensures  frame:: frame(s)
+//@   ensures  noreg:: implies(result1 == nil, forall(0, len(result0), func(k int) bool { return !isType(result0[k], *object.Register) }))
+//@   property C05 C10
+
+//@ func (*State).extendFunctionEnv
+//@   requires s != nil && currrentEnv != nil && (streq(currrentEnv.cacheKey, fn.CacheKey) || fn.Env != nil)
+//@   requires allocated(s.env)
+//@   modifies heap
+//@   nosafety
+//@   maypanic *
+//@   loop 1 invariant env != nil && 0 <= env.numReg && env.numReg <= 8 && env != old(s.env)
+//@   loop 1 invariant s.depth == old(s.depth) && s.env == old(s.env) && s.Out == old(s.Out) && s.env.numReg == old(s.env.numReg)
+//@   ensures  frame:: frame(s)
+//@   ensures  capacity:: implies(result2 == nil, result0 != nil && 0 <= result0.numReg && result0.numReg <= 8)
+//@   property C05
+
+//@ func (*State).evalForInteger
+//@   requires s != nil && s.env != nil && 0 <= s.env.numReg
+//@   modifies heap
+//@   nosafety
+//@   maypanic *
+//@   ensures  frame:: frame(s)
+//@   ensures  balance:: s.env.numReg == old(s.env.numReg)
+//@   loop 1 invariant s.depth == old(s.depth) && s.env == old(s.env) && s.Out == old(s.Out)
+//@   loop 1 invariant s.env.numReg == old(s.env.numReg) + ite(ptr != nil, 1, 0)
+//@   property C05 C10
